@@ -122,7 +122,14 @@ func (p *Parser) nextToken() {
 }
 
 func (p *Parser) Parse() (Node, error) {
-	return p.parseExpression()
+	node, err := p.parseExpression()
+	if err != nil {
+		return nil, err
+	}
+	if p.currentToken.Type != TokenEOF {
+		return nil, fmt.Errorf("unexpected token after expression: %s", p.currentToken.Literal)
+	}
+	return node, nil
 }
 
 // Eexpression := LogicalExpression
